@@ -23,6 +23,7 @@ ANCHORS = ['pycaption.dfxp.base:DFXPReader.read', 'pycaption.dfxp.base:DFXPWrite
 ANCHORS_OPTIONAL = ('pycaption.dfxp.base:DFXPReader.read', 'pycaption.sami:SAMIParser._find_lang',
                     'pycaption.sami:SAMIParser.handle_starttag', 'pycaption.sami:SAMIReader.read',
                     'pycaption.sami:SAMIReader._translate_lang')   # also run in child processes
+THOROUGH_SCALE = 4        # random budgets of the thorough tier are multiplied by this
 REQUIRE = {'sets_whose_languages_share_all_timespans': 50, 'dfxp_writes_LegacyDFXPWriter': 20,
            'dfxp_writes_SinglePositioningDFXPWriter': 20, 'child_batches': 3, 'dfxp_docs_read': 30, 'sami_docs_read': 30, 'div_without_lang': 5,
            'default_lang_env_used': 2, 'sets_written_dfxp': 50, 'sets_written_sami': 50, 'webvtt_lang_option': 30,
